@@ -85,3 +85,8 @@ def timeout_configs():
     """the timeout flags, on the command line and through the environment: read back from the wired servers and observed on real connections"""
     args = ['-timeout-tls-handshake=250ms', '-timeout-http-idle=300ms', '-timeout-http-read=7s', '-timeout-http-write=9s']
     return [{'args': args, 'timeouts': True}, {'args': args, 'timeouts': True, 'via_env': True}]
+
+
+def cert_configs():
+    """the TLS configuration as wired (defaultTLSConfig + certwatcher): what clients of several kinds are shown before and after rotations"""
+    return [{'args': [], 'certs': True}, {'args': [], 'certs': True, 'via_env': True}]
